@@ -1,0 +1,29 @@
+// Copyright 2021 TiKV Project Authors.
+//
+// Licensed under the Apache License, Version 2.0 (the "License");
+// you may not use this file except in compliance with the License.
+// You may obtain a copy of the License at
+//
+//     http://www.apache.org/licenses/LICENSE-2.0
+//
+// Unless required by applicable law or agreed to in writing, software
+// distributed under the License is distributed on an "AS IS" BASIS,
+// See the License for the specific language governing permissions and
+// limitations under the License.
+
+//go:build verif
+// +build verif
+
+package member
+
+import "github.com/pingcap/kvproto/pkg/pdpb"
+
+// VerifSetLeader caches the PD leader the way WatchLeader does for a follower
+// (nil clears it, as the end of WatchLeader does).
+func (m *Member) VerifSetLeader(leader *pdpb.Member) {
+	if leader == nil {
+		m.unsetLeader()
+		return
+	}
+	m.setLeader(leader)
+}
